@@ -32,12 +32,15 @@
   reservation names a reserved tree and reservation + tree counter = free frames of the tree, as
   many reserved trees as reservations).
 
-  Remaining (carried by the correspondence): `stats_at(order 0)`, `is_free`, and configurations
-  outside `CfgOk` (none in the repository).
+  `queries_never_panic`: `stats_at(frame, 0)` and `is_free(frame, order)` (every order, aligned
+  in-range blocks: the arguments the source asserts) return a value and read only.
+
+  Remaining (carried by the correspondence): configurations outside `CfgOk` (none in the repository).
 -/
 import LLFreeV.Proofs.EndToEnd
 import LLFreeV.Proofs.TreeStats
 import LLFreeV.Proofs.Validate
+import LLFreeV.Proofs.LowerQuery
 namespace LLFree.C09
 open LLFree
 
@@ -105,5 +108,16 @@ theorem tree_stats_never_panics (c : Cfg) (H : Nat → Nat) (ok : CfgOk c) (m : 
 theorem validate_never_panics (c : Cfg) (ok : CfgOk c) (m : Mem) (inv : UpperInv0 c (fun _ => 0) m) :
     Runs m (validate c) (fun _ m' => m = m') :=
   validate_spec c m ok inv
+
+/-- the per-frame queries return a value (no panic, nothing written) for in-range frames and the
+    blocks `is_free` accepts -/
+theorem queries_never_panic (c : Cfg) (ok : GeomOk16 c.geom) (m : Mem) (inv : LowerInv c m) (frame order : Nat)
+    (hal : frame % 2 ^ order = 0) (hin : frame + 2 ^ order ≤ c.frames) (hto : order ≤ c.geom.treeOrder) :
+    (∃ s, runSolo (Lower.statsAt c.geom frame 0) m = (m, .ok s)) ∧
+    (∃ b, runSolo (Lower.isFree c.geom frame order) m = (m, .ok b)) := by
+  have hpos : 0 < 2 ^ order := Nat.pos_of_ne_zero (by simp)
+  refine ⟨⟨_, statsAt_frame_exact ok m inv frame (by omega)⟩, ?_⟩
+  obtain ⟨b, hb, _⟩ := isFree_exact ok m inv frame order hal hin hto
+  exact ⟨b, hb⟩
 
 end LLFree.C09
